@@ -196,12 +196,9 @@ func derive(s *sut, ops [][]string) string {
 			}
 		}
 	}
-	for _, tcp := range []bool{false, true} {
+	for _, kind := range []string{"http", "tcp", "tcphttp"} {
+		tcp := kind != "http"
 		for _, auth := range []string{"1"} {
-			kind := "http"
-			if tcp {
-				kind = "tcp"
-			}
 			s.apply([]string{"build", kind, auth})
 			var lines [][]string
 			var reqs []*request
